@@ -225,6 +225,7 @@ theorem step_ext (C : Codecs) (c : Cmd) (andx : Bool) (opt : List String) (s s1 
       · cases hrun
     | ifWordCount _ _ => simp [extShape] at hsh
     | subHead _ _ => simp [extShape] at hsh
+    | zeros _ _ => simp [extShape] at hsh
     | _ => simp [straight] at hst
 
 /-- a statement of the extended fragment that emits nothing is a straight-line one -/
